@@ -106,6 +106,7 @@ type Effect struct {
 	base  ssa.Value // nil: unknown base (whole array)
 	param int       // index in fn.Params when base is a parameter, else -1
 	all   bool
+	ghost    bool   // with all: specification-only (ghost) state may change too (explicit "modifies *" of a contract)
 	arrField int    // >0: the location is the memory block arrBase(base, arrField-1) of an array-typed field
 }
 
@@ -304,7 +305,12 @@ func (p *Prog) contractEffects(so *Sorts, fn *ssa.Function, c *Contract) []Effec
 	var out []Effect
 	for _, m := range c.Modifies {
 		if m == "*" {
-			return []Effect{{all: true}}
+			return []Effect{{all: true, ghost: true}}
+		}
+		if m == "heap" {
+			// everything except ghost (specification-only) state
+			out = append(out, Effect{all: true})
+			continue
 		}
 		if strings.HasPrefix(m, "elems(") {
 			name := strings.TrimSuffix(strings.TrimPrefix(m, "elems("), ")")
@@ -317,6 +323,11 @@ func (p *Prog) contractEffects(so *Sorts, fn *ssa.Function, c *Contract) []Effec
 					}
 				}
 			}
+			continue
+		}
+		if strings.HasPrefix(m, "ghost ") {
+			name := strings.TrimSpace(strings.TrimPrefix(m, "ghost "))
+			out = append(out, Effect{key: regKeyS(so, "GH:"+name, arrSort(sInt, sInt)), param: -1})
 			continue
 		}
 		if strings.HasPrefix(m, "map ") {
@@ -643,7 +654,21 @@ func (ex *Exec) applyEffects(h *Heap, effs []Effect, l *Loop, guard Term) *Heap 
 	for _, e := range effs {
 		if e.all {
 			q.note("%s: havoc of the whole heap (callee or loop body with unknown effects)", ex.fn.Name())
-			return ex.havocAllKeep(h, guard)
+			ghostToo := false
+			for _, e2 := range effs {
+				if e2.all && e2.ghost {
+					ghostToo = true
+				}
+			}
+			nh := ex.havocAllKeep(h, guard)
+			if ghostToo {
+				for k := range q.so.keySort {
+					if strings.HasPrefix(k, "GH:") {
+						nh.m[k] = q.fresh("hv_"+k, q.so.keySort[k])
+					}
+				}
+			}
+			return nh
 		}
 	}
 	nh := h.clone()
